@@ -33,6 +33,19 @@ def part_of(t, part, rule_term):
     return t == ("field", strip(rule_term), part)
 
 
+def _box_deref(b, l):
+    """Is local l (a raw pointer) only ever the pointer inside a `Box` the function owns or borrows — the way MIR
+    spells `*boxed` / `**ref_to_box`?  Writing through it is a safe store into the box's own allocation."""
+    defs = [s_["rv"] for blk in b.blocks for s_ in blk["stmts"] if s_["k"] == "assign" and s_["place"]["l"] == l and not s_["place"]["p"]]
+    def boxptr(rv):
+        if rv["k"] != "cast" or rv.get("ck") != "Transmute" or rv["op"]["k"] not in ("copy", "move"):
+            return False
+        pr = rv["op"]["place"]["p"]
+        return len(pr) >= 2 and isinstance(pr[-1], dict) and pr[-1].get("field") == "pointer" and \
+            isinstance(pr[-2], dict) and pr[-2].get("of") == "std::boxed::Box"
+    return bool(defs) and all(boxptr(rv) for rv in defs)
+
+
 def run(ctx):
     prog = ctx.prog
     S = Solver(prog, ctx)
@@ -92,7 +105,8 @@ def run(ctx):
                 if pl["p"] and any(e == "deref" for e in pl["p"]):
                     base_ty = b.locals[pl["l"]]["s"].replace(" ", "")
                     if b.locals[pl["l"]].get("k") == "ptr" and ("unifiable::Unifiable" in base_ty or SS_VEC in base_ty) \
-                            and "MaybeUninit<[" not in base_ty and not base_ty.lstrip("*constmu ").startswith("["):
+                            and "MaybeUninit<[" not in base_ty and not base_ty.lstrip("*constmu ").startswith("[") \
+                            and not _box_deref(b, pl["l"]):
                         # (initialising the fresh array behind a `vec![..]` literal is not a write into shared data)
                         bad = (b, s["line"], "raw-pointer write into a term or substitution set")
     ctx.ob("R1", "writes-only-to-owned-vectors", bad is None and n_mut >= 1, ctx.where(bad[0], bad[1]) if bad else "",
